@@ -21,10 +21,11 @@ Second layer (unbounded, all states / bytes / histories), about the executable f
   writes (any other tag, also unknown ones, both slots, any acknowledgement including
   `ERR_MISS_TRANSITION_TIME`), by clock ticks and thermal events; hence the property on `Obs`.
 * `silencer_inv_multiframe_partial` — every frame of a multi-frame write *without* transition
-  (all prefixes, i.e. aborted sends) keeps `Core`, provided a `GainSwapSegment` is only sent to a
-  segment satisfying `GainOkAt`.  Excluded, with kernel-checked counterexample traces: F8b
-  (transition-carrying BEGIN frame) and F8c (cut write to a segment holding a plain Gain, then
-  `GainSwapSegment`).
+  (all prefixes, i.e. aborted sends), arbitrarily interleaved with every kind of swap, silencer
+  reconfiguration, Clear and any other tag, keeps `Core` — no side condition on `GainSwapSegment`
+  any more (repaired firmware: `change_gain_segment` evaluates the guard on the target segment).
+  Still excluded, with a kernel-checked counterexample trace: F8b (transition-carrying BEGIN frame
+  of a send that is then cut).  `f8c_repaired`: the former F8c trace now ends refused.
 
 Deviation from the brief: the CPU's strict copy is *implied by* — not equivalent to — the strict bit
 of `ADDR_SILENCER_FLAG`: `clear` sets `silencer_strict_mode = true` but writes 0 to the flag register.
@@ -63,7 +64,7 @@ theorem transition_table : ∀ (mode : Fin 256) (same finite : Bool),
 
 /-! ## rejected_changes_nothing -/
 
-/-- **rejected_changes_nothing** (handler level): each of the seven handlers that can answer
+/-- **rejected_changes_nothing** (handler level): each of the eight handlers that can answer
 `ERR_INVALID_SILENCER_SETTING` returns, with that answer, the state it was given — every field, for
 every state and every payload bytes; `write_mod` has only reset its write cursor `modCycle`,
 `write_gain_stm` has only latched `gainStmMode` -/
@@ -75,11 +76,12 @@ theorem rejected_changes_nothing (s s' : State) (d : Array Nat) :
     (changeFociStmSegment s d = .ok (s', Cpu.ERR_INVALID_SILENCER_SETTING) → s' = s) ∧
     (writeGainStm s d = .ok (s', Cpu.ERR_INVALID_SILENCER_SETTING) →
       s' = { s with gainStmMode := u8at d FwLayout.GainSTMHead_mode_off }) ∧
-    (changeGainStmSegment s d = .ok (s', Cpu.ERR_INVALID_SILENCER_SETTING) → s' = s) :=
+    (changeGainStmSegment s d = .ok (s', Cpu.ERR_INVALID_SILENCER_SETTING) → s' = s) ∧
+    (changeGainSegment s d = .ok (s', Cpu.ERR_INVALID_SILENCER_SETTING) → s' = s) :=
   ⟨fun h => configSilencer_rejected s d _ h rfl, fun h => writeMod_rejected s d _ h rfl,
    fun h => changeModSegment_rejected s d _ h rfl, fun h => writeFociStm_rejected s d _ h rfl,
    fun h => changeFociStmSegment_rejected s d _ h rfl, fun h => writeGainStm_rejected s d _ h rfl,
-   fun h => changeGainStmSegment_rejected s d _ h rfl⟩
+   fun h => changeGainStmSegment_rejected s d _ h rfl, fun h => changeGainSegment_rejected s d _ h rfl⟩
 
 /-- **rejected_changes_nothing** (dispatch level): whatever the tag byte (all 19 handlers and unknown
 tags), a payload answered with `ERR_INVALID_SILENCER_SETTING` leaves every field of the state unchanged
@@ -162,18 +164,17 @@ theorem silencer_guard (n t : Nat) (as : List Action) (s0 s : State) (h0 : Fw.ne
   (silencer_inv n t as s0 s h0 hok hr).core.guard_obs
 
 /-
-Full statement wanted (DESIGN §5): the same for EVERY prefix of EVERY multi-frame send.  It is false on
-this tree (F8b, F8c below).  Proved: the variant that (a) keeps only `Core`, (b) admits every frame of a
-multi-frame Modulation / FociSTM / GainSTM write that carries no transition (`PayloadOk`: BEGIN frames
-with transition mode NONE and no UPDATE, continuation frames without UPDATE — so every prefix = aborted
-send is covered), complete transition-carrying single frames, and all other tags, (c) requires of a
-`GainSwapSegment` payload that its target segment satisfies `GainOkAt` in the state where it is handled
-(true whenever no cut STM write to that segment precedes it).  Missing for the full statement: the
-firmware would have to set the belief at END+UPDATE (F8b) and `change_gain_segment` would have to call
-`validate_silencer_settings` (F8c).
+Full statement wanted (DESIGN §5): the invariant for EVERY prefix of EVERY multi-frame send.  It is false
+on this tree for transition-carrying sends (F8b below).  Proved: the variant for `Core` that admits every
+frame of a multi-frame Modulation / FociSTM / GainSTM write that carries no transition (`PayloadOk`:
+BEGIN frames with transition mode NONE and no UPDATE, continuation frames without UPDATE — so every
+prefix = aborted send is covered), complete transition-carrying single frames, and ALL other tags without
+any condition: Gain, the four swaps (in particular `GainSwapSegment` to a segment whose STM write was
+cut — the former F8c pattern), both silencer frames, Clear, unknown tags; both slots.  Missing for the
+full statement: the firmware would have to set the belief at END+UPDATE instead of BEGIN (F8b).
 -/
 theorem silencer_inv_multiframe_partial (n t : Nat) (as : List Action) (s0 s : State)
-    (h0 : Fw.new n t = .ok s0) (hok : RunOkCore s0 as) (hr : run s0 as = .ok s) :
+    (h0 : Fw.new n t = .ok s0) (hok : ∀ a ∈ as, ActionOkCore a) (hr : run s0 as = .ok s) :
     Core s ∧ ∃ rs rm, Obs.reqStmSeg s = .ok rs ∧ Obs.reqModSeg s = .ok rm ∧
       ((s.strict = true ∨ (Obs.silencerFixedUpdateRateMode s = false ∧ strictBit s = true)) →
         ∀ i p, Obs.silencerCompletionSteps s = .ok (i, p) →
@@ -181,10 +182,13 @@ theorem silencer_inv_multiframe_partial (n t : Nat) (as : List Action) (s0 s : S
   have hc := run_core as s0 (new_inv n t s0 h0).core hok s hr
   ⟨hc, hc.guard_obs⟩
 
-/-- one step of the partial theorem, for reference: the handlers of the C08 alphabet re-establish `Core`
-under the flag discipline `PayloadOk` alone (multi-frame writes without transition included) -/
-theorem core_frame_partial (s s' : State) (f : Array Nat) (h : Core s) (hf : FrameOkCore s f)
+/-- one step of the partial theorem: under the flag discipline `PayloadOk` alone (both slots) a frame
+re-establishes `Core`, whatever it acknowledges -/
+theorem core_frame_partial (s s' : State) (f : Array Nat) (h : Core s) (hf : FrameOkCore f)
     (hr : ecatRecv s f = .ok s') : Core s' := ecatRecv_core s f h hf s' hr
+
+/-- the complete-frame alphabet of `silencer_inv` is a special case of the partial theorem's alphabet -/
+theorem frameOk_core (a : Action) (h : ActionOk a) : ActionOkCore a := h.core
 
 /-- **F8b counterexample** (kernel-checked): from `CPUEmulator::new`, FociSTM div 40 → S0 (Immediate),
 a FociSTM → S1 carrying an Immediate transition cut after its BEGIN frame, Silencer(10, 80, strict):
@@ -194,11 +198,15 @@ theorem f8b_counterexample :
     summary (fromNew f8bTrace) = [3, 0, 1, 40, 65535, 0, 65535, 65535, 10, 80, 4, 1] := by
   decide +kernel
 
-/-- **F8c counterexample** (kernel-checked, not in the list of known findings): FociSTM div 40 → S1
-*without* transition cut after its BEGIN frame, Silencer(10, 80, strict), GainSwapSegment(S1): all
-acknowledged; belief = request = S1 whose division register is 40 < 80 with strict fixed-steps mode -/
-theorem f8c_counterexample :
-    summary (fromNew f8cTrace) = [3, 1, 1, 65535, 40, 0, 65535, 65535, 10, 80, 4, 1] := by
+/-- **F8c is repaired** (kernel-checked; negation of the former `f8c_counterexample`): FociSTM div 40 → S1
+without transition cut after its BEGIN frame (ack 1), Silencer(10, 80, strict) accepted (ack 2),
+GainSwapSegment(S1) is now answered `ERR_INVALID_SILENCER_SETTING` (142); belief and request register
+stay S0 (whose division is 0xFFFF) and nothing else in the summary moves -/
+theorem f8c_repaired :
+    trailFromNew f8cTrace =
+      [[1, 0, 0, 65535, 40, 0, 65535, 65535, 10, 40, 0, 1],
+       [2, 0, 0, 65535, 40, 0, 65535, 65535, 10, 80, 4, 1],
+       [142, 0, 0, 65535, 40, 0, 65535, 65535, 10, 80, 4, 1]] := by
   decide +kernel
 
 /-! ## non-vacuity -/
@@ -221,16 +229,25 @@ example : trailFromNew legalTrace =
 /-- every action of the legal history satisfies the frame condition -/
 example : ∀ a ∈ legalTrace, ActionOk a := by decide +kernel
 
-/-- the cut BEGIN frames of F8b / F8c are indeed outside `FrameOk`; the F8c one is inside `PayloadOk` -/
+/-- the cut BEGIN frames of F8b / F8c are outside `FrameOk`; the F8c one and all of `f8cTrace`,
+`multiTrace`, `swapsTrace` are inside the partial theorem's alphabet, the F8b BEGIN frame is not -/
 example : ¬ FrameOk (mkFrame 2 (fociFrame 1 1 0xFF 0xFFFF)) ∧ ¬ FrameOk (mkFrame 1 (fociFrame 1 1 0xFE 40)) ∧
-    PayloadOk (slot1 (mkFrame 1 (fociFrame 1 1 0xFE 40))) := by decide +kernel
+    ¬ FrameOkCore (mkFrame 2 (fociFrame 1 1 0xFF 0xFFFF)) ∧
+    (∀ a ∈ f8cTrace, ActionOkCore a) ∧ (∀ a ∈ multiTrace, ActionOkCore a) ∧
+    (∀ a ∈ swapsTrace, ActionOkCore a) := by decide +kernel
 
-
-/-- the hypotheses of `silencer_inv_multiframe_partial` are satisfiable by a genuine multi-frame write:
-BEGIN frame and END frame of a FociSTM to segment 1 without transition, a strict silencer request, a
-FociSTM swap to segment 1 — `RunOkCore` holds from `CPUEmulator::new` (checked by the executable
-`runOkCoreB`, proved sound in `Lemmas/SilGuardWitness.lean`) -/
-example : ∃ s0, Fw.new 249 0 = .ok s0 ∧ RunOkCore s0 multiTrace :=
-  checkFromNew_sound multiTrace (by decide +kernel)
+/-- the hypotheses of `silencer_inv_multiframe_partial` are met by a history that runs without panic
+from `CPUEmulator::new`: a FociSTM BEGIN frame (div 40, no transition) to S1 that is never completed,
+GainSwapSegment(S1) accepted while the default steps (10/40) allow it, Silencer(10, 80, strict) refused
+(142) because S1 is now requested, the other swaps, and back to S0 -/
+example : trailFromNew swapsTrace =
+    [[1, 0, 0, 65535, 40, 0, 65535, 65535, 10, 40, 0, 1],
+     [2, 1, 1, 65535, 40, 0, 65535, 65535, 10, 40, 0, 1],
+     [142, 1, 1, 65535, 40, 0, 65535, 65535, 10, 40, 0, 1],
+     [4, 1, 1, 65535, 40, 0, 65535, 65535, 10, 40, 0, 1],
+     [136, 1, 1, 65535, 40, 0, 65535, 65535, 10, 40, 0, 1],
+     [136, 1, 1, 65535, 40, 0, 65535, 65535, 10, 40, 0, 1],
+     [7, 1, 1, 65535, 40, 1, 65535, 65535, 10, 40, 0, 1],
+     [8, 0, 0, 65535, 40, 1, 65535, 65535, 10, 40, 0, 1]] := by decide +kernel
 
 end Autd3.C08
